@@ -181,7 +181,7 @@ def r2_roles(repo, report):
                         bad.append("QualityTrimmer(" + part[:80])
             if "ZeroCapper(" in k:
                 seen += 1
-                if "ZeroCapper(quality_base=args.quality_base)" not in k:
+                if "ZeroCapper(args.quality_base)" not in k and "ZeroCapper(quality_base=args.quality_base)" not in k:
                     bad.append(k[:100])
         report.ob("C13.R2", f"{mode}: --quality-base and the cutoffs reach the trimmers", not bad and seen >= 3, facts={"slots": seen, "problems": bad[:3]},
                   expected="NextseqQualityTrimmer(args.nextseq_trim, args.quality_base); QualityTrimmer(*parse_cutoffs(cutoff), args.quality_base); ZeroCapper(quality_base=args.quality_base)", loc="src/cutadapt/cli.py",
